@@ -1,6 +1,7 @@
 INIT Init
 NEXT Next
 CONSTANTS
+  ShtabBreaksDefaults = {"A"}
   ClearOnError = TRUE
 INVARIANT Inv
 CHECK_DEADLOCK FALSE
